@@ -73,6 +73,10 @@ func (em Extensions) Validate() error {
 	for k, ev := range em {
 		if e := k.Validate(); e != nil {
 			err[k.String()] = e
+		} else if ev == cbc.CodeEmpty {
+			// entries without value are removed when a document is normalized;
+			// one that is still here would be written out as an empty code
+			err[k.String()] = errors.New("cannot be blank")
 		} else if e := ev.Validate(); e != nil {
 			err[k.String()] = e
 		}
